@@ -48,15 +48,24 @@ func newAggregatedLabels(set LabelSet, by, without map[string]struct{}) *aggrega
 }
 
 // By returns new set of labels containing only given list of labels.
+//
+// An empty list keeps no labels. If the set is already restricted by an inner
+// grouping, labels removed by it do not reappear.
 func (a *aggregatedLabels) By(labels ...logql.Label) logqlmetric.AggregatedLabels {
-	if len(labels) == 0 {
-		return a
+	by := make(map[string]struct{}, len(labels))
+	for _, label := range labels {
+		if a.by != nil {
+			if _, ok := a.by[string(label)]; !ok {
+				continue
+			}
+		}
+		by[string(label)] = struct{}{}
 	}
 
 	sub := &aggregatedLabels{
 		entries: a.entries,
 		without: a.without,
-		by:      buildSet(maps.Clone(a.by), labels...),
+		by:      by,
 	}
 	return sub
 }
@@ -167,7 +176,7 @@ func (a *aggregatedLabels) forEach(cb func(k, v string)) {
 		if _, ok := a.without[e.name]; ok {
 			continue
 		}
-		if len(a.by) > 0 {
+		if a.by != nil {
 			if _, ok := a.by[e.name]; !ok {
 				continue
 			}
